@@ -111,6 +111,20 @@ func (c *Ctx) keySignature2(u *FuncUnit, v *types.Var, cs codecShape, depth int)
 					if tv, has := info.Types[call.Args[1]]; has && tv.Value != nil {
 						op = "term"
 					}
+				default:
+					// a helper of the library that prepares the key (t.searchKey(key)): the
+					// derivation is that of the variable it returns
+					if cu := c.m.calleeUnit(call); cu != nil && cu.Lit == nil && cu.Body != nil && c.sigDepth < 3 {
+						if rets, all := returnExprs(cu); all && len(rets) == 1 {
+							if rv := identVar(info, rets[0]); rv != nil {
+								c.sigDepth++
+								if sig := c.keySignature2(cu, rv, cs, 0); sig != "" {
+									op = sig
+								}
+								c.sigDepth--
+							}
+						}
+					}
 				}
 			}
 			defs = append(defs, def{as.Pos(), op})
